@@ -1394,8 +1394,46 @@ impl Scenario for C17Seq {
             out.harness_error = Some(e);
         }
         if let Some((v, p)) = cx.viol {
-            out.violation = Some(v);
-            out.narrowed = Some(SeqPlan { explicit: Some(p), ..plan.clone() });
+            if plan.explicit.is_none() {
+                // The depth-first search restores the UI part of the state field by
+                // field; a field the driver does not know (added by a change to
+                // /repo) would leak between sibling sequences. A violation is only
+                // reported when the sequence fails on a fresh state as well;
+                // otherwise the block is enumerated again, every sequence from a
+                // fresh state.
+                let straight = self.execute(&SeqPlan { explicit: Some(p.clone()), ..plan.clone() });
+                if straight.violation.as_ref().map(|x| x.key()) == Some(v.key()) {
+                    out.violation = Some(v);
+                    out.narrowed = Some(SeqPlan { explicit: Some(p), ..plan.clone() });
+                } else {
+                    out.count("restore_incomplete_block_replayed_from_scratch", 1);
+                    let a = SEQ_ALPHABET.len();
+                    let mut stack: Vec<Vec<u8>> = vec![plan.prefix.clone()];
+                    while let Some(path) = stack.pop() {
+                        let r = self.execute(&SeqPlan { explicit: Some(path.clone()), ..plan.clone() });
+                        out.evaluations += 1;
+                        if let Some(e) = r.harness_error {
+                            out.harness_error = Some(e);
+                            break;
+                        }
+                        if let Some(v2) = r.violation {
+                            out.violation = Some(v2);
+                            out.narrowed = Some(SeqPlan { explicit: Some(path), ..plan.clone() });
+                            break;
+                        }
+                        if (path.len() as u8) < plan.len_max {
+                            for k in (0..a).rev() {
+                                let mut q = path.clone();
+                                q.push(k as u8);
+                                stack.push(q);
+                            }
+                        }
+                    }
+                }
+            } else {
+                out.violation = Some(v);
+                out.narrowed = Some(SeqPlan { explicit: Some(p), ..plan.clone() });
+            }
         }
         out
     }
@@ -1431,7 +1469,7 @@ impl Scenario for C17Seq {
             ],
             assumptions: vec!["the table does not change during a sequence (rows appearing, ageing and expiring between events are covered by the seeded scenario)"],
             fault_kinds: vec!["key_before_first_draw", "tiny_terminal"],
-            probes: vec!["sequences_prefix_nodes", "nav_on_empty_table", "selection_out_of_range_after_draw"],
+            probes: vec!["sequences_prefix_nodes", "nav_on_empty_table", "selection_out_of_range_after_draw", "restore_incomplete_block_replayed_from_scratch"],
         }
     }
 }
